@@ -21,14 +21,24 @@ import concurrent.futures as cf
 
 V = os.path.dirname(os.path.dirname(os.path.abspath(__file__)))
 REPO = os.environ.get("VERIF_REPO", "/repo")
+if "--noinline" in sys.argv:
+    # XSIMD_INLINE is always_inline: gcov then attributes most kernel lines to nothing.  A shadow copy of the include tree with
+    # XSIMD_INLINE = inline, compiled with -fno-inline, gives every kernel its own counters (the code under test is otherwise identical)
+    sh_root = os.path.join(V, "build", "cov_repo")
+    subprocess.run(["rsync", "-a", "--delete", os.path.join(REPO, "include"), sh_root + "/"], check=True)
+    with open(os.path.join(sh_root, "include", "xsimd", "config", "xsimd_inline.hpp"), "w") as f:
+        f.write("#ifndef XSIMD_INLINE_HPP\n#define XSIMD_INLINE_HPP\n#define XSIMD_INLINE inline\n#endif\n")
+    REPO = sh_root
+    os.environ["VERIF_REPO"] = sh_root
 ALL = ["C%02d" % i for i in range(1, 21)]
 
 
 def main():
     args = sys.argv[1:]
     norun = "--no-run" in args
+    noinline = "--noinline" in args
     props = [a for a in args if a.startswith("C")] or ALL
-    env = dict(os.environ, VERIF_EXTRA_CXXFLAGS="--coverage", VERIF_EXTRA_LDFLAGS="--coverage",
+    env = dict(os.environ, VERIF_EXTRA_CXXFLAGS="--coverage -fno-inline" if noinline else "--coverage", VERIF_EXTRA_LDFLAGS="--coverage",
                VERIF_OUT=os.path.join(V, "build", "cov_out"), VERIF_TIER="quick")
     if not norun:
         for p in props:
